@@ -9,7 +9,9 @@ T  translator regeneration + bitwise translation validation of the spatial kerne
 S  property oracle on the real engine alone (harness/c/c06_oracle.c): symmetry and Cholesky-positivity of mj_fullM,
    M = sum_b J_b^T I_b J_b + armature with Jacobians from mj_jacBodyCom, tendon-armature part, L^T D L reconstruction
    from qLD, solveM o mulM = id and mulM o solveM = id, qfrc_bias = rne(0) + tendon bias, rne(a) - rne(0) = M_crb a,
-   plus the duality / parallel-axis identities on the compiled spatial kernels.
+   the bias force against the Lagrangian of the engine's own M(q) (qfrc_bias = Mdot v - 1/2 grad(v^T M v) + grad PE, with
+   the Euler-Poincare term w x (M v) on the body-fixed rotational blocks of ball / free joints; M(q), xipos by central
+   differences along mj_integratePos), plus the duality / parallel-axis identities on the compiled spatial kernels.
 """
 import json
 import math
@@ -21,7 +23,7 @@ from gen.models import unit_quat, unit_vec, fmt
 META = {
     "technique": "Lean 4 proofs over the reals about a hand-written executable model of the CSR 'lower triangle by rows' routines (loop invariants by list induction, generic dimension and sparsity pattern; finite-dimensional linear algebra from Mathlib for the left inverse and for positive definiteness) and about c2lean-translated spatial kernels (ring) + bitwise differential correspondence of the model (Float) with the compiled engine on the engine's own matrices + property oracle on the real engine",
     "text": "Proved for every dimension n and every sparsity pattern accepted by lowerOk (diagonal slot last, strictly increasing columns below the diagonal) — for mj_factorI additionally treeOk (row of column c = prefix of the row, as mj_makeDofDofSparse lays out any dof_parentid forest): the dense matrix of mju_sym2dense (mj_fullM) times v equals mju_mulSymVecSparse (mj_mulM) entry by entry, and both equal the matrix D + Lo + Lo^T the format stands for; the output of mju_sym2dense is symmetric for every input whatsoever; mju_dotSparse's 4-accumulator scheme is the plain dot product; whatever qLD / qLDiagInv hold (lower pattern, non-zero qLDiagInv), the three passes of mj_solveLD return the solution y of (L^T D L) y = x with L the unit lower factor stored in the off-diagonal slots and D = 1/qLDiagInv — hence if L^T D L = M then mj_mulM(mj_solveM(x)) = x and mj_solveM(mj_mulM(v)) = v; mj_factorI on a tree pattern produces exactly such a factorisation (L^T D L = M, qLDiagInv = 1/D) whenever its pivots are non-zero [see THEOREMS for whether this last clause is proved or certificate-only]. Spatial algebra on the kernels translated from engine_util_spatial.c / engine_inline.h: crossForce is minus the transpose of crossMotion, crossMotion(v, v) = 0, the mji_ inline copies equal the mju_ functions, mju_inertCom + mju_mulInertVec implement the parallel-axis theorem (momentum (R I R^T w + d x p, p), p = m (v + w x d)) and their quadratic form is sum_k I_k (R^T w)_k^2 + m |v + w x d|^2. Algebra of positive definiteness: sum_b J_b^T I_b J_b + diag(armature) is positive semidefinite when every I_b is and armature >= 0, and positive definite when every I_b is and every non-zero v is seen by some J_b or carries positive armature.",
-    "note": "NOT proved, decided by the oracle on the real engine only: that mj_crb computes sum J^T I J + armature (composite-rigid-body recursion), that mj_rne(a) = M a + bias and qfrc_bias = rne(0) (+ tendon bias). The model abstracts flat address arithmetic (rowadr[i] + k, i*n + col) to rows; the AVX kernels, sleep filtering (index != NULL) and mj_solveM2 are not modelled. Tendon armature: the engine adds armature * J^T J only inside M's tree sparsity pattern (upstream test TendonArmature expects exactly that); the oracle checks that behaviour and counts the models where off-pattern terms are dropped (reported in the evidence, not as a failure). Reals vs doubles: rounding is outside the proofs.",
+    "note": "NOT proved, decided by the oracle on the real engine only: that mj_crb computes sum J^T I J + armature (composite-rigid-body recursion), that mj_rne(a) = M a + bias, qfrc_bias = rne(0) (+ tendon bias), and that this bias is the Coriolis / centrifugal / gyroscopic / gravity force of the Lagrangian with the engine's own M(q) (finite-difference oracle; skipped for models whose tendon inertia falls outside M's pattern). The model abstracts flat address arithmetic (rowadr[i] + k, i*n + col) to rows; the AVX kernels, sleep filtering (index != NULL) and mj_solveM2 are not modelled. Tendon armature: the engine adds armature * J^T J only inside M's tree sparsity pattern (upstream test TendonArmature expects exactly that); the oracle checks that behaviour and counts the models where off-pattern terms are dropped (reported in the evidence, not as a failure). Reals vs doubles: rounding is outside the proofs.",
 }
 
 P = "MjProof.C06."
@@ -56,6 +58,7 @@ class Tree:
         self.cams = []
         self.nq = self.nv = self.nmocap = 0
         self.ntendon = 0
+        self.gravity = [0.0, 0.0, -9.81]
         self.info = {}
 
     def text(self):
@@ -94,10 +97,13 @@ def gen_tree(rng, maxbody=8, maxdof=40, frames=True, tendons=True, p=None):
         h[0] += 1
         return h[0]
     L("option timestep 0.002")
+    t.gravity = [0.0, 0.0, -9.81]      # mjOption default
     if rng.random() > p["gravity"]:
+        t.gravity = [0.0, 0.0, 0.0]
         L("option gravity 0 0 0")
     elif rng.random() < 0.3:
-        L("option gravity %s" % fmt([rng.uniform(-5, 5), rng.uniform(-5, 5), rng.uniform(-10, 0)]))
+        t.gravity = [rng.uniform(-5, 5), rng.uniform(-5, 5), rng.uniform(-10, 0)]
+        L("option gravity %s" % fmt(t.gravity))
     # no collisions / constraints are needed for this property: keeps mj_fwdPosition cheap
     L("option disableflags %d" % (E("mjDSBL_CONTACT") | E("mjDSBL_CONSTRAINT")))
     nb = rng.randint(1, maxbody)
@@ -379,7 +385,88 @@ def model_block(rng, tree, nstates, thorough):
             add("solveM 3 " + " ".join(fb(x) for _ in range(3) for x in vec(rng.choice(styles))), kind="rec")
             add("mulM " + " ".join(fb(x) for x in vec(rng.choice(styles))), kind="rec")
         add("round " + " ".join(fb(x) for x in vec("gauss") + vec("gauss")), kind="round")
+    if 1 <= nv <= (24 if thorough else 12) and rng.random() < (0.7 if thorough else 0.5):
+        l2, m2 = lagrange_block(rng, tree)
+        lines += l2
+        meta += m2
     return lines, meta
+
+
+LAG_EPS = 1e-6
+
+
+def lagrange_block(rng, tree):
+    """harness lines for the independent check of the bias force against the Lagrangian of the engine's own M(q):
+       c = Mdot v - 1/2 grad_q (v^T M v) + grad_q PE (+ w x (M v) on the rotational block of ball / free joints, whose
+       velocity coordinates are body-fixed).  M(q), xipos come from the engine at q (+-) eps e_i and q (+-) eps v."""
+    lines, meta = [], []
+
+    def add(l, **kw):
+        lines.append(l)
+        meta.append(kw)
+    nv = tree.nv
+    qpos = tree.random_qpos(rng)
+    qvel = [rng.gauss(0, 1) for _ in range(nv)]
+    info = {"qpos": qpos, "qvel": qvel, "gravity": tree.gravity}
+    base = ["set qpos " + " ".join(map(fb, qpos)), "set qvel " + " ".join(map(fb, qvel))]
+    for l in base:
+        add(l, kind="set")
+    if tree.nmocap:
+        add("set mocap_pos " + " ".join(fb(rng.uniform(-1, 1)) for _ in range(3 * tree.nmocap)), kind="set")
+        add("set mocap_quat " + " ".join(fb(x) for _ in range(tree.nmocap) for x in unit_quat(rng)), kind="set")
+    add("fwd", kind="fwd")
+    add("dump", kind="lagdump", lag=info)
+    for i in list(range(nv)) + ["v"]:
+        for sgn in (+1, -1):
+            add(base[0], kind="set")
+            vec = qvel if i == "v" else [1.0 if k == i else 0.0 for k in range(nv)]
+            add("integ " + fb(sgn * LAG_EPS) + " " + " ".join(fb(x) for x in vec), kind="set")
+            add("fwd", kind="fwd")
+            add("mq", kind="lagmq", dof=i, sgn=sgn)
+    add("lagend", kind="lagend")
+    return lines, meta
+
+
+def judge_lagrange(dump, mqs, lag, joints, dev):
+    """returns list of (key, what)"""
+    fails = []
+    n = I(dump, "n")[0]
+    if n == 0 or any(v is None for pr in mqs.values() for v in pr):
+        return fails
+    v, grav = lag["qvel"], lag["gravity"]
+    M = F(dump, "fullM")
+    mass = F(dump, "body_mass")
+    bias = F(dump, "qfrc_bias")
+
+    def quad(A):
+        return sum(A[i * n + j] * v[i] * v[j] for i in range(n) for j in range(n))
+
+    def pe(x):
+        return -sum(mass[b] * sum(grav[r] * x[3 * b + r] for r in range(3)) for b in range(len(mass)))
+    Mp, Mm = F(mqs["v"][0], "fullM"), F(mqs["v"][1], "fullM")
+    Mdot_v = [sum((Mp[i * n + j] - Mm[i * n + j]) / (2 * LAG_EPS) * v[j] for j in range(n)) for i in range(n)]
+    Mv = matvec(M, n, v)
+    exp = []
+    for i in range(n):
+        a, b = mqs[i]
+        dT = (quad(F(a, "fullM")) - quad(F(b, "fullM"))) / (2 * LAG_EPS)
+        dV = (pe(F(a, "xipos")) - pe(F(b, "xipos"))) / (2 * LAG_EPS)
+        exp.append(Mdot_v[i] - 0.5 * dT + dV)
+    # Euler-Poincare term on the body-fixed rotational blocks:  w x p,  p = (M v)_block
+    for j in joints:
+        if j["type"] in ("ball", "free"):
+            a = j["dofadr"] + (3 if j["type"] == "free" else 0)
+            w, pblk = v[a:a + 3], Mv[a:a + 3]
+            c = cross3(w, pblk)
+            for r in range(3):
+                exp[a + r] += c[r]
+    scale = max([abs(x) for x in bias] + [abs(x) for x in Mdot_v] + [abs(x) for x in Mv] + [1e-300])
+    err = max(abs(a - b) for a, b in zip(bias, exp))
+    if dev.see("bias-equals-lagrangian", err, 2e-5 * scale) > 1:
+        fails.append(("c06:bias-equals-lagrangian",
+                      "qfrc_bias differs from Mdot v - 1/2 grad(v^T M v) + grad PE (+ w x Mv on quaternion blocks) formed by "
+                      "central differences of the engine's own M(q), xipos (deviation %.3g, allowed %.3g)" % (err, 2e-5 * scale)))
+    return fails
 
 
 def kernel_lines(rng, n):
@@ -598,6 +685,37 @@ def run_stream(ctx, impl, drv, trees, nstates, dev, stats, max_report=6):
         ctx.disagreements += bad[:20]
         if recs:
             ctx.sample({"op": recs[0][0][:260] + " ...", "engine_and_model_output": recs[0][1][:120] + " ..."})
+    # ---- oracle: bias force against the Lagrangian of the engine's own M(q)
+    lagdump, lagmq, laginfo, lagline = None, {}, None, 0
+    for i, (o, mt) in enumerate(zip(outs, meta)):
+        k = mt["kind"]
+        if k == "lagdump" and o.startswith("dump"):
+            lagdump, lagmq, laginfo, lagline = parse_groups(o.split()[1:]), {}, mt["lag"], i
+        elif k == "lagmq" and lagdump is not None:
+            pr = lagmq.setdefault(mt["dof"], [None, None])
+            pr[0 if mt["sgn"] > 0 else 1] = parse_groups(o.split()[1:]) if o.startswith("mq") else None
+        elif k == "lagend" and lagdump is not None:
+            t = trees[owner[i]]
+            # the engine keeps tendon inertia only inside M's tree pattern: the Lagrangian identity then does not apply
+            nn = I(lagdump, "n")[0]
+            ta, tj = F(lagdump, "tenarm"), F(lagdump, "tenJ")
+            rn, ra, ci = I(lagdump, "rownnz"), I(lagdump, "rowadr"), I(lagdump, "colind")
+            inpat = {(r, ci[ra[r] + q]) for r in range(nn) for q in range(rn[r])}
+            offpat = any(ta[q] and tj[q * nn + a] and tj[q * nn + b] and (max(a, b), min(a, b)) not in inpat
+                         for q in range(len(ta)) for a in range(nn) for b in range(nn))
+            if offpat:
+                stats["lagrange_skipped_offpattern_tendon"] = stats.get("lagrange_skipped_offpattern_tendon", 0) + 1
+            else:
+                fs = judge_lagrange(lagdump, lagmq, laginfo, t.joints, dev)
+                stats["lagrange_states"] = stats.get("lagrange_states", 0) + 1
+                if fs:
+                    nfail += 1
+                    if len(found) < max_report:
+                        found.append({"key": fs[0][0], "what": fs[0][1],
+                                      "replay": {"model": t.text(), "qpos": laginfo["qpos"], "qvel": laginfo["qvel"],
+                                                 "how": "`model`, `set qpos/qvel`, `fwd`, `dump`; then per dof `set qpos`, `integ +-1e-6 e_i`, "
+                                                        "`fwd`, `mq` on the c06_oracle harness"}})
+            lagdump = None
     # ---- oracle
     i = 0
     N = len(lines)
@@ -640,7 +758,7 @@ def gen_trees(ctx, n, maxbody, maxdof):
     for k in range(n):
         r = ctx.rng.random()
         mb = maxbody if r < 0.6 else max(2, maxbody // 3)
-        t = gen_tree(ctx.rng, maxbody=mb, maxdof=maxdof, frames=False)
+        t = gen_tree(ctx.rng, maxbody=mb, maxdof=maxdof, frames=ctx.rng.random() < 0.5)
         trees.append(t)
         b = "nv=0" if t.nv == 0 else "nv<=5" if t.nv <= 5 else "nv<=15" if t.nv <= 15 else "nv<=30" if t.nv <= 30 else "nv>30"
         hist[b] = hist.get(b, 0) + 1
